@@ -7,7 +7,7 @@
    the generated terms) no longer holds, this file stops compiling. *)
 From Coq Require Import List NArith Bool.
 Import ListNotations.
-Require Import Pk.Upload Pk.UploadProofs Pk.GenRoutes.
+Require Import Pk.Upload Pk.UploadProofs Pk.UploadRegexProofs Pk.GenRoutes.
 Open Scope N_scope.
 
 (* ---- side conditions on the generated definitions (finite computations) *)
@@ -67,6 +67,11 @@ Proof. exact child_split. Qed.
 Theorem route_param_is_one_segment : forall pre r path seg,
   route_match pre r path = Some seg -> seg <> [] /\ ~ In SLASH seg /\ re_match r seg = true.
 Proof. exact route_match_no_slash. Qed.
+
+(* the matcher used above decides the usual language of the regular expression (bytes; `.` is
+   not newline; anchored), for every expression the translator can produce and every string *)
+Theorem route_regexp_matcher_decides_language : forall s r, re_match r s = true <-> lang r s.
+Proof. exact re_match_spec. Qed.
 
 (* ---- 2. two uploads of one name, flags as in the source: for every schedule (any list of
         thread choices), every failure plan of either upload (copy fails after any number of
